@@ -1,7 +1,7 @@
-(* C19 — FIRST sets over-approximate what a rule can start with (partial: the empty marker). *)
+(* C19 — FIRST sets over-approximate what a rule can start with. *)
 From Coq Require Import List String NArith Bool Arith.
 From Pegen Require Import Base.StrUtil Base.Values Grammar.Ast Runtime.Tokenizer Sem.Peg Analysis.Visitor Analysis.Nullable
-  Proofs.VisitorSim Proofs.NullableProofs Proofs.NullSem.
+  Proofs.VisitorSim Proofs.NullableProofs Proofs.NullSem Analysis.FirstSets Analysis.FirstPure Proofs.FirstSound.
 Import ListNotations.
 Open Scope string_scope.
 
@@ -41,3 +41,30 @@ Proof.
   rewrite (special_spec methods "NameLeaf" _ _ Hs) in Hv. unfold pleaf in Hv. rewrite Hf in Hv. exact Hv.
 Qed.
 Print Assumptions C19_rule_matching_nothing_is_flagged.
+
+(* The first-token half.  For every grammar whose lookahead operands are single tokens ([lk_rules],
+   the class the property speaks about) and every table T that is CLOSED under the FIRST equations
+   of Analysis/FirstPure.v evaluated with the nullability flags of the analysis ([closed_b] --
+   decidable, evaluated on every run on the table the real FirstSetCalculator computes): whenever a
+   rule matches and consumes, under the reference semantics, for any token list, position and
+   action interpretation, the first token it consumed is described by a member of T(rule): its
+   literal, or its token kind. *)
+Theorem C19_first_token_sound :
+  forall methods iter_fields rs st, nul_tbl_ok methods = true -> monotone_tbl methods = true ->
+  NoDup (map rname rs) -> ids_consistent rs ->
+  compute_nullables methods iter_fields rs = Some st ->
+  forall T, closed_b rs T (pv_item methods (pleaf rs (flags_of st))) = true -> lk_rules rs = true ->
+  forall K toks kw soft aeval item_name forced_msg n r p v p',
+  find_rule rs n = Some r ->
+  peg_item K rs toks kw soft aeval item_name forced_msg (NameLeaf n) p (PSucc v p') -> p < p' ->
+  exists t m, nth_error toks p = Some t /\ In m (T n) /\ describes K kw soft m t.
+Proof.
+  intros methods itf rs st Hok Hm Hn Hids Hc T Hcl Hlk K toks kw soft aeval item_name forced_msg n r p v p' Hf H Hlt.
+  destruct (nullable_least methods itf rs st Hm Hn Hids Hc) as [HP _].
+  pose proof (proj1 (first_sound methods Hok K rs toks kw soft aeval item_name forced_msg _ HP T Hcl Hlk) _ _ _ H) as Hfs.
+  assert (Hl : lk_item rs (NameLeaf n) = true) by (cbn [lk_item]; rewrite Hf; reflexivity).
+  destruct (Hfs Hl _ _ eq_refl Hlt) as (t & m & Ht & Hin & Hd).
+  exists t, m. split; [exact Ht|]. split; [|exact Hd].
+  cbn [effg pf_item] in Hin. rewrite Hf in Hin. exact Hin.
+Qed.
+Print Assumptions C19_first_token_sound.
